@@ -103,8 +103,9 @@ func c18Part(t *testing.T, name string, byMsg bool, mk func(e explore.Env) (case
 }
 
 // c18Baseline learns how many datagrams the fault-free execution of a case uses.
-func c18Baseline(t *testing.T, c c18Case) [2]int {
+func c18Baseline(t *testing.T, e explore.Env, part string, c c18Case) [2]int {
 	c.Faults = nil
+	explore.MarkCurrent(e, part, c)
 	n := c18Run(t, c).datagrams
 	if os.Getenv("VERIF_C18_DEBUG") != "" {
 		fmt.Fprintf(os.Stderr, "C18BASE %v %v\n", c, n)
@@ -140,7 +141,7 @@ func TestVerifC18(t *testing.T) {
 					continue
 				}
 				base := c18Case{Msg: m, Seed: seed(e)}
-				n := c18Baseline(t, base)
+				n := c18Baseline(t, e, "faults", base)
 				for _, fm := range sim.AllSingleFaults(n, c18Fates) {
 					c := base
 					c.Faults = fm
@@ -162,7 +163,7 @@ func TestVerifC18(t *testing.T) {
 			var cases []c18Case
 			for _, m := range msgs {
 				base := c18Case{Msg: m, Seed: seed(e)}
-				n := c18Baseline(t, base)
+				n := c18Baseline(t, e, "faults-k2", base)
 				n[0], n[1] = min(n[0], N), min(n[1], N)
 				for _, fm := range sim.AllFaultMaps(n, c18Fates, 2) {
 					if len(fm) != 2 {
@@ -281,7 +282,7 @@ func TestVerifC18(t *testing.T) {
 				cases = append(cases, c18Case{Msg: m, Real: true, Seed: seed(e)})
 			}
 			base := c18Case{Real: true, Seed: seed(e)}
-			for _, fm := range sim.AllSingleFaults(c18Baseline(t, base), c18Fates) {
+			for _, fm := range sim.AllSingleFaults(c18Baseline(t, e, "real-server", base), c18Fates) {
 				c := base
 				c.Faults = fm
 				cases = append(cases, c)
